@@ -96,4 +96,9 @@ def exBadFrame : Bytes := [10, 0, 0, 0, 6, 0x34, 0x12, 0xde, 0xad, 0xbe]
 example : Delimited 8192 Gen.C.maximumLength exBadFrame := by unfold Delimited; decide
 example : frameOutcome 8192 Gen.C.maximumLength registry exBadFrame = .protoErr 0x1234 := by decide
 
+/-- O (regenerated from transport.go): the pooled buffers a frame is received into stay out of the
+pool until `recv` returns, so a message is decoded from the bytes of its own frame also while
+other goroutines send and receive. -/
+theorem receive_buffers_live_while_decoding : Gen.recvBufferReleasedOnReturn = true := by decide
+
 end P9.C02
